@@ -631,12 +631,15 @@ namespace cds { namespace container {
 
             If the buffer capacity is a power of two, lightweight binary arithmetics is used
             instead of modulo arithmetics.
+
+            The capacity is rounded up to a multiple of <tt>sizeof(size_t)</tt>: every record starts
+            with a \p size_t header, so the tail of the buffer must always have room for one.
         */
         WeakRingBuffer( size_t capacity = 0 )
             : front_( 0 )
             , pfront_( 0 )
             , cback_( 0 )
-            , buffer_( capacity )
+            , buffer_(( capacity + sizeof( size_t ) - 1 ) & ~( sizeof( size_t ) - 1 ))
         {
             back_.store( 0, memory_model::memory_order_release );
         }
